@@ -244,3 +244,21 @@ func gcDue(sinceGC *int) bool {
 	}
 	return false
 }
+
+// warmUp executes a fixed set of runs of the property and throws the results
+// away.  Code under test may (correctly) build things on first use - per-type
+// decode plans, lazily compiled tables - and the instrumented build sees that
+// as extra steps and yield points: a run would then leave a different trace as
+// the first user of a type than as a later one.  Every worker, shrinker and
+// replay process therefore starts warm, except for the cold-start runs, whose
+// point is to be cold.
+func warmUp(p *Prop, seed uint64, tier string) {
+	const warmBase = 1 << 27
+	for j := 0; j < 96; j++ {
+		res := execRun(p, rt.NewTape(runSeed(seed, p.ID, warmBase+j)), tier, false)
+		if res.Abandoned != "" {
+			return
+		}
+	}
+	collectGarbage()
+}
